@@ -7,7 +7,9 @@ import (
 // MsgGlobals are the globals the messages of MsgStress may print.
 var MsgGlobals = map[string]Value{"msgs.FLAG": I(-5), "MX": S("[global MX]"), "lib.util.userName": S("[global userName]"),
 	// two globals that end in the same segment and have the same value: still two placeholders
-	"site.URL": S("//host"), "cdn.URL": S("//host")}
+	"site.URL": S("//host"), "cdn.URL": S("//host"),
+	// numbers for plural values
+	"app.COUNT": I(2), "COUNT": I(1)}
 
 // MsgStress builds a message whose placeholders deliberately collide on their
 // base names: $a.x / $b.x / $x / $x_1 / $x_2, the same variable with
@@ -125,6 +127,10 @@ func (g *G) MsgStress(allowPlural bool) []Cmd {
 		case g.Chance(25):
 			lets[len(lets)-1] = Cmd{K: "let", Var: "cnt", Expr: &Expr{Op: "map", Keys: []string{"num"}, Args: []*Expr{{Op: "int", I: int64(g.Intn(4))}}}}
 			pl.Expr = &Expr{Op: "ref", Name: "cnt", Access: []Access{{Kind: "key", Key: "num"}}}
+		case g.Chance(20):
+			// a compile-time global as the plural value: named after the part behind its last dot
+			lets = lets[:len(lets)-1]
+			pl.Expr = &Expr{Op: "global", Name: g.Pick("msgs.FLAG", "app.COUNT", "COUNT")}
 		case g.Chance(30):
 			// a plural value without a name of its own - the same reference may also be printed in the cases
 			lets = lets[:len(lets)-1]
@@ -144,7 +150,9 @@ func (g *G) MsgStress(allowPlural bool) []Cmd {
 		msg.Body = []Cmd{pl}
 	} else {
 		n := 1 + g.Intn(10)
-		if g.Chance(4) {
+		if g.Chance(3) {
+			n = 0 // an empty message
+		} else if g.Chance(4) {
 			n = 20 + g.Intn(15) // a long message: many placeholders, many of them colliding
 		}
 		msg.Body = parts(n)
